@@ -101,6 +101,13 @@ def confirm(chk, o, prop, name):
         lines += ['| %s@retry(%d)' % (ind, shape.retries[0] + shape.retries[1])]
     lines += ['| %sScenario: s' % ind] + ['| %s  Given s%d' % (ind, i) for i in range(shape.steps)]
     unsupported = []
+    # callbacks whose panic payload has to be neither String nor &str for the deviation to show
+    custom = set()
+    for e in tl:
+        if e[0] == 'ev':
+            for x in e:
+                if isinstance(x, str) and x.startswith('Box<dyn Any> around '):
+                    custom.add(x[len('Box<dyn Any> around '):])
     for n_ in shape.step_names():
         f = finds.get(n_)
         if f == 'none':
@@ -109,11 +116,11 @@ def confirm(chk, o, prop, name):
             lines.append('ambiguous %s' % n_)
         h = hows.get(n_)
         if h in ('panic', 'eager_panic'):
-            lines.append('step %s always_fail%s' % (n_, ' eager' if h == 'eager_panic' else ''))
+            lines.append('step %s always_fail%s%s' % (n_, ' eager' if h == 'eager_panic' else '', ' payload=custom' if n_ in custom else ''))
     for hk in ('before', 'after'):
         h = hows.get(hk)
         if h in ('panic', 'eager_panic'):
-            lines.append('hook %s * always_fail%s' % (hk, ' eager' if h == 'eager_panic' else ''))
+            lines.append('hook %s * always_fail%s%s' % (hk, ' eager' if h == 'eager_panic' else '', ' payload=custom' if hk in custom else ''))
     if any(k != 'ok' for k in wn):
         lines.append('world_new %s' % wn[0])
     d = os.path.join(common.EVID, 'replay')
@@ -144,6 +151,10 @@ def confirm(chk, o, prop, name):
             created = len(re.findall(r'LOG world_new w\d+', out))
             if created > 1:
                 problems.append('%d Worlds created in one attempt' % created)
+        if name == 'failed-events-carry-the-payload':
+            lost = [e for e in sc if '+unknown-type' in e]
+            if lost:
+                problems.append('a panic with a payload that is neither String nor &str: the Failed event\'s Info does not downcast to the payload\'s type: %s' % lost[0])
         if name == 'canonical-event-sequence':
             # the real attempt's events (those of the attempt whose retry counters are the shape's) against the canonical sequence
             from checks import events as _events
@@ -160,7 +171,7 @@ def confirm(chk, o, prop, name):
                     return '%s[%s]:failed:%s' % (k, e[2], {'NotFound': 'notfound', 'AmbiguousMatch': 'ambiguous', 'Panic': 'panic'}[e[5]])
                 return '%s[%s]:%s' % (k, e[2], e[3].lower())
             want = [native_name(e) for e in ref['events']]
-            got = [e.split(':scenario[s]:', 1)[1][:-len(rtag)] for e in sc if e.endswith(rtag)]
+            got = [e.split(':scenario[s]:', 1)[1][:-len(rtag)].replace('+custom', '').replace('+unknown-type', '') for e in sc if e.endswith(rtag)]
             if got != want:
                 problems.append('the real attempt emits %s, canonical sequence %s' % (got, want))
         if name == 'failed-events-say-retried-iff-the-attempt-is-retried':
